@@ -2,12 +2,13 @@ SPECIFICATION Spec
 CONSTANTS
   Accts = {"a"}
   Slots = {0, 1}
-  Offs = {0, 1, 32}
+  Offs = {0, 1, 32, 256, 1002}
   Types = {"t", "u"}
   Names = {"x", "y"}
   Vals = {"v", "w"}
   MaxOps = 3
   MaxCalls = 1
+  MaxRefused = 1
   ProbeSlot = 9
   DevFirstWins = FALSE
 INVARIANTS TypeOK LookupAgree ChangeVisibleBoth ChildIndicesExact Emit
